@@ -1078,6 +1078,12 @@ struct static_array<T, ::boost::multi::dimensionality_type{0}, Alloc>  // NOLINT
 	#pragma clang diagnostic pop
 	#endif
 
+	// exchanges the two elements; both arrays keep their storage and their allocators (the inherited swap is for temporaries of views)
+	void swap(static_array& other) noexcept(std::is_nothrow_swappable_v<typename static_array::element_type>) {
+		using std::swap;
+		swap(*(this->base_), *(other.base_));
+	}
+
 	template<class TT, class... As,
 		class = std::enable_if_t<std::is_assignable<typename static_array::element_ref, TT>{}>>  // NOLINT(modernize-use-constraints) TODO(correaa) for C++20
 	auto operator=(static_array<TT, 0, As...> const& other) & -> static_array& {
